@@ -361,6 +361,48 @@ func checkC08(r *evid.Run) {
 	r.Set("rule", "every forest up to the bound x directory states reached by Mkdir of the same tree and/or 0-2 environment steps (any node path or an extra entry at any depth, as file or directory) x {strict, non-strict} x {From-Markdown, From-Root (single root)}; the error text is parsed into the two documented lists and compared as sets; non-trivial = more than 3 entries in the directory")
 }
 
+// lineBreakNames: a programmatic tree may carry names Markdown cannot spell - a line break inside a name is a valid file
+// name.  The dry-run counts (the report's last line) must predict what the real run creates for them too.
+func lineBreakNames(r *evid.Run, pool *wproto.Pool) {
+	trees := [][]wproto.Item{
+		{{D: 1, N: "r"}, {D: 2, N: "a\nb"}, {D: 2, N: "c"}},
+		{{D: 1, N: "r\nq"}, {D: 2, N: "a"}, {D: 3, N: "x\n\ny"}, {D: 2, N: "f.x"}},
+		{{D: 1, N: "r"}, {D: 2, N: "line one\nline two.x"}, {D: 2, N: "d"}, {D: 3, N: "e\n"}},
+	}
+	for ti, items := range trees {
+		for _, massive := range []bool{false, true} {
+			for _, op := range []string{"mkdir", "output"} {
+				dry := pool.Call(wproto.Req{Op: op, Route: "root", Items: items, DryRun: true, Exts: []string{".x"}, Massive: massive, Jail: true}, 30*time.Second)
+				realRun := pool.Call(wproto.Req{Op: "mkdir", Route: "root", Items: items, Exts: []string{".x"}, Massive: massive}, 30*time.Second)
+				r.Count("real_calls", 2)
+				if realRun.Class != "ok" || dry.Class != "ok" {
+					r.Mismatch("dryrun-"+op+"-root:line-break-name:rejected", fmt.Sprintf("tree %d (names with line breaks) massive=%v: dry run %s(%q), real run %s(%q)", ti, massive, dry.Class, dry.Err, realRun.Class, realRun.Err), map[string]any{"items": items, "massive": massive})
+					continue
+				}
+				dirs, files := 0, 0
+				for _, e := range realRun.Entries {
+					if strings.HasPrefix(e, "d:t/") {
+						dirs++
+					} else if strings.HasPrefix(e, "f:t/") {
+						files++
+					}
+				}
+				lines := strings.Split(strings.TrimRight(dry.Out, "\n"), "\n")
+				want := fmt.Sprintf("%d directories, %d files", dirs, files)
+				if got := lines[len(lines)-1]; got != want {
+					r.Mismatch("dryrun-"+op+"-root:line-break-name:counts-differ", fmt.Sprintf("tree %d (names with line breaks) massive=%v: the report ends %q, the real run made %s", ti, massive, got, want), map[string]any{"items": items, "massive": massive, "report": dry.Out, "made": realRun.Entries})
+				}
+				for _, e := range dry.Entries {
+					if strings.HasPrefix(e, "d:t/") || strings.HasPrefix(e, "f:t/") {
+						r.Mismatch("dryrun-"+op+"-root:line-break-name:touches-the-filesystem", fmt.Sprintf("tree %d: %v", ti, dry.Entries), map[string]any{"items": items})
+						break
+					}
+				}
+			}
+		}
+	}
+}
+
 // ---------------------------------------------------------------- C09
 
 func checkC09(r *evid.Run) {
@@ -369,6 +411,7 @@ func checkC09(r *evid.Run) {
 		return
 	}
 	defer pool.Close()
+	lineBreakNames(r, pool)
 	cfg, timeout := fsTier(r, "C09")
 	runFsModel(r, cfg, timeout, func(s *fsState) {
 		call := s.Hist[len(s.Hist)-1]
